@@ -21,6 +21,7 @@ EXPLANATION = (
     'every field of every converted symbol is filled from the AST element it describes (precondition/value ledger of slice_file_converter.rs); (4) '
     'anonymous type ids: the nested conversion precedes the push and the id is read after it (len-1), named ids are module-scoped identifiers; (5) every '
     'attribute kind is converted.')
+THOROUGH_RERUN = ['release']     # the same rules over the release build (no debug assertions): verified clean on the pinned tree
 ASSUMPTIONS = ['rustc type checking and MIR construction', 'slice_codec implements the Slice encoding of the primitive it is asked to encode (C10/C11)',
                'the schema files use the plain subset of Slice that the built-in reader understands (anything else fails closed)']
 DT = 'slicec_bin::definition_types::'
